@@ -178,7 +178,7 @@ def path_positions(rng, total, cut, quick):
     offsets where the behaviour can change -- around the ends, the mutation point and the multiples of the buffer capacity
     (before them a flush inside save_internal sees the failure, in the last partial buffer only into_inner's flush does)
     -- plus random ones"""
-    if total <= (400 if quick else 3000):
+    if total <= (400 if quick else 1000):
         return list(range(0, total + 2))
     ps = {0, 1, 2, total - 2, total - 1, total, total + 1, cut - 1, cut, cut + 1,
           cut - BUF - 1, cut - BUF, cut - BUF + 1, total - BUF - 1, total - BUF, total - BUF + 1}
@@ -214,7 +214,7 @@ def gen_cases(rng, tier):
         return []
     g = Gen(rng)
     quick = tier == 'quick'
-    plan = [('tiny', 8 if quick else 120), ('small', 8 if quick else 150), ('medium', 4 if quick else 80), ('large', 2 if quick else 30)]
+    plan = [('tiny', 8 if quick else 120), ('small', 8 if quick else 150), ('medium', 4 if quick else 80), ('large', 2 if quick else 16)]
     docs = []
     for size, n in plan:
         for _ in range(n):
@@ -329,8 +329,13 @@ MANIFEST = {
                   'really delivered (C19_counter_exact); a failed save leaves the document either untouched or with exactly the '
                   'bookkeeping mutation of a successful one (C19_failed_save_residue, C19_resave_table, C19_resave_stream_partial); the '
                   'incremental path is observably the plain one (C19_incremental_is_plain); all of it instantiated at Model/Save.v '
-                  '(C19_save_*). Tied to the real save_to by differential runs with scripted sinks at every failure offset.',
-    'level_note': 'Trusted: Coq kernel; std write_all transcription; hand-written model tied by correspondence (result class, '
+                  '(C19_save_*). Document::save(path) = File::create?, save_internal into a BufWriter, into_inner()? (Model/SinkBuf.v): '
+                  'for every capacity, call list and file script Ok is returned iff no underlying write failed -- the final flush '
+                  'included -- and only with the complete file, the error is that of the first failure, the file always holds a prefix '
+                  '(C19_save_path_ok_iff_complete, C19_save_path_full_device, C19_save_path_residue). '
+                  'Tied to the real save_to by differential runs with scripted sinks at every failure offset, and to the real '
+                  'save(path) by runs on a healthy file, a directory, /dev/full and RLIMIT_FSIZE-limited files.',
+    'level_note': 'Trusted: Coq kernel; std write_all and BufWriter transcriptions; hand-written model tied by correspondence (result class, '
                   'delivered bytes, max_id/trailer after the save, byte-identity of the re-save); extraction/OCaml driver; Rust harness. '
                   'What the saved bytes are and that they load back is C01/C03; here the re-save clause is proved at the level of '
                   'document state and checked end-to-end on the implementation. No axioms.',
